@@ -1227,6 +1227,18 @@ func runDoc(d replayDoc, section string, sec *vh.Section, verbose bool) {
 		}
 		runSystem(h, section, sec, verbose)
 	case "cached":
+		var probe struct {
+			Limit int `json:"limit"`
+		}
+		if json.Unmarshal(d.Input, &probe) == nil && probe.Limit > 0 {
+			var rc repositionCase
+			if err := json.Unmarshal(d.Input, &rc); err != nil {
+				res.Note("replay: bad reposition input: %v", err)
+				return
+			}
+			runRepositionCase(rc, section, sec, verbose)
+			return
+		}
 		var c cachedCase
 		if err := json.Unmarshal(d.Input, &c); err != nil {
 			res.Note("replay: bad cached input: %v", err)
